@@ -425,7 +425,26 @@ def r05l(F):
 		out.append(Result('05.l', ok, ('ok:' if ok else 'rotated-twice:') + 'repeated-channel_ready@ChannelReady', 'channel_ready in state ChannelReady never reaches the point stores', 1, where=F.where(fn)))
 	return out
 
+def r05m(F):
+	"""the revocation secret is released only once the newer holder commitment is durable: (i) the signer-pending revoke_and_ack flag - which lets
+	signer_maybe_unblocked release the secret - is written only by the generators / resend stanzas that run after the monitor update completed
+	(same census as 09.d); (ii) on restart a channel counts as "all monitor updates completed" only when EVERY in-flight update reached the
+	monitor (same rule as 10.c) - otherwise the missing update carrying the newer commitment is replayed before anything is released"""
+	import C09, C10
+	out = []
+	for r in C09.r09d(F):
+		if 'signer_pending_revoke_and_ack' in (r.key + r.msg) or 'get_last_revoke_and_ack' in (r.key + r.msg):
+			r.rule = '05.m'
+			out.append(r)
+	for r in C10.r10c(F):
+		r.rule = '05.m'
+		out.append(r)
+	if len(out) < 5:
+		out.append(Result('05.m', False, 'floor:release-after-durable', 'only %d rule instances (expected >= 5)' % len(out), len(out)))
+	return out
+
 RULES = [
+	('05.m', 'the secret is released only after the newer commitment is durable: signer-pending flag writers; restart replays every in-flight update', r05m),
 	('05.l', 'channel_ready rotates the counterparty commitment points exactly once (flag-domain evaluation of the handler)', r05l),
 	('05.a', 'release_commitment_secret is reachable only from get_last_revoke_and_ack, with index next_transaction_number + 2', r05a),
 	('05.b', 'HolderCommitmentPoint::advance only behind a validated commitment_signed', r05b),
